@@ -23,10 +23,11 @@ type Mix struct {
 	Mut   bool // @mutable on T.M and T.Ms
 	Extra int  // 0 none; 1 prose lines around and annotations in reverse order; 2 type inside a grouped type(...) declaration
 	PreludeLast bool // type declarations after the blocks of file a.go
+	NoOwn       bool // the importing package declares NO annotated type of its own (by default it has its own T)
 }
 
 func (m Mix) String() string {
-	return fmt.Sprintf("imm=%v,ctor=%d,mut=%v,extra=%d,last=%v", m.Imm, m.Ctor, m.Mut, m.Extra, m.PreludeLast)
+	return fmt.Sprintf("imm=%v,ctor=%d,mut=%v,extra=%d,last=%v,noown=%v", m.Imm, m.Ctor, m.Mut, m.Extra, m.PreludeLast, m.NoOwn)
 }
 
 func (m Mix) CtorNames() []string {
@@ -154,6 +155,7 @@ type Site struct {
 	Core  bool     // also placed under every wrapper
 	NeedPtrR bool  // needs r to be a pointer (omitted in value-receiver methods of T)
 	NotInMethT bool // omitted in methods of T (would shadow the receiver; not judged)
+	NoImport   bool // the only sites rendered in the import-free file n.go (they use hp() and LT only)
 	OnlyInU    bool // rendered only in the importing package (refers to u's own same-named type T)
 	PkgLevel string // for EPkgVarDirect: the declaration form (CTOR family only)
 	Lines []string // multi-line form (instead of Stmt): the site is line Lines[At]
@@ -172,7 +174,7 @@ type Block struct {
 
 func (b Block) String() string { return fmt.Sprintf("%s@%d", b.Encl, b.File) }
 
-var FileNames = []string{"a.go", "b.go", "c_test.go"}
+var FileNames = []string{"a.go", "b.go", "c_test.go", "n.go"} // n.go: a file of the importing package that does not import d itself
 
 // SiteInst is a rendered site.
 type SiteInst struct {
@@ -398,8 +400,8 @@ func Render(s *Spec) *Rendered {
 		r.ptName = "APT"
 	}
 
-	files := make([]*lineWriter, 3)
-	used := make([]bool, 3)
+	files := make([]*lineWriter, 4)
+	used := make([]bool, 4)
 	used[0] = true
 	for _, b := range s.Blocks {
 		used[b.File] = true
@@ -415,6 +417,9 @@ func Render(s *Spec) *Rendered {
 		}
 		w.add("package " + pkgName)
 		w.add("")
+		if i == 3 {
+			continue // no imports at all: everything it touches is declared in a.go
+		}
 		if s.InU {
 			if s.Spell == SpRenamedImp {
 				w.add(`import dd "ex.com/m/d"`)
@@ -444,11 +449,18 @@ func Render(s *Spec) *Rendered {
 		w.add("func use(...any) {}")
 		w.add("")
 		if s.InU {
-			w.add("// T is this package's own type; it merely shares its name (and constructor names) with d.T.")
-			w.add("// @immutable")
-			w.add("// @constructor NewT, Alt")
-			w.add("type T struct{ F int }")
+			w.add("// hp and LT let a file of this package reach d's annotated type without importing d itself.")
+			w.add("func hp() *" + r.q + "T { return " + r.q + "GetP() }")
 			w.add("")
+			w.add("type LT = " + r.q + "T")
+			w.add("")
+			if !s.Mix.NoOwn {
+				w.add("// T is this package's own type; it merely shares its name (and constructor names) with d.T.")
+				w.add("// @immutable")
+				w.add("// @constructor NewT, Alt")
+				w.add("type T struct{ F int }")
+				w.add("")
+			}
 		}
 		switch s.Spell {
 		case SpLocalAlias:
@@ -544,6 +556,23 @@ func (r *renderer) pre(w *lineWriter, indent string) {
 
 func (r *renderer) block(w *lineWriter, pkgPath string, bi int, b Block) {
 	file := pkgPath + "/" + FileNames[b.File]
+	if b.File == 3 {
+		// a function in the import-free file: only the sites that need nothing but hp() and LT
+		r.pre(w, "")
+		w.addf("func fn%d() {", bi)
+		for si := range r.spec.Sites {
+			st := &r.spec.Sites[si]
+			if !st.NoImport {
+				continue
+			}
+			r.pre(w, "\t")
+			ln := w.add("\t" + r.subst(st.Stmt))
+			r.record(st, bi, WNone, file, ln)
+		}
+		w.add("}")
+		w.add("")
+		return
+	}
 	r.pre(w, "")
 	if b.Ignore != "" && b.Encl != EPkgVarDirect && b.Encl != EPkgVarDirectRev {
 		w.add(b.Ignore)
@@ -737,6 +766,9 @@ func (r *renderer) section(w *lineWriter, file string, bi int, wr Wrapper, ptrR,
 			continue
 		}
 		if st.OnlyInU && !r.spec.InU {
+			continue
+		}
+		if st.Subj == SubjOwnT && r.spec.Mix.NoOwn {
 			continue
 		}
 		r.pre(w, ind)
